@@ -125,8 +125,8 @@ type splitObs struct {
 	panicSig  string
 	panicText string
 	// derived
-	repKind   codingKind
-	repKnown  bool
+	repKind  codingKind
+	repKnown bool
 }
 
 func cmppKind(n int) (codingKind, bool) {
